@@ -197,11 +197,11 @@ Definition attr_cmp (op : attr_op) (ins : bool) (actual operand : bytes) : bool 
   let n := length operand in
   match op with
   | OpEq => cs_eq ins actual operand
-  | OpIncludes => existsb (fun part => cs_eq ins part operand) (split_ws actual)
-  | OpPrefix => negb (length actual =? 0) && (n <=? length actual) && cs_eq ins (firstn n actual) operand
+  | OpIncludes => negb (n =? 0) && existsb (fun part => cs_eq ins part operand) (split_ws actual)
+  | OpPrefix => negb (n =? 0) && (n <=? length actual) && cs_eq ins (firstn n actual) operand
   | OpDash => cs_eq ins actual operand
               || (match nth_error actual n with Some c => (c =? 45)%N | None => false end && cs_eq ins (firstn n actual) operand)
-  | OpSuffix => negb (length actual =? 0) && (n <=? length actual) && cs_eq ins (skipn (length actual - n) actual) operand
+  | OpSuffix => negb (n =? 0) && (n <=? length actual) && cs_eq ins (skipn (length actual - n) actual) operand
   | OpSubstring => match operand with [] => false | _ => has_substring ins actual operand (S (length actual)) end
   end.
 Definition eval_attr_expr (attrs : list attr_view) (is_html : bool) (e : attr_expr) : bool :=
